@@ -70,7 +70,10 @@ func accept(p *balloon.MembershipProof, d hashing.Digest, s *balloon.Snapshot) (
 // with the remaining dimensions narrowed (stated in the evidence bounds).
 func run(cluster, recombine bool) {
 	N := rt.Param("N", 2)
-	n := 1 + rt.Choose("n", N)
+	n := N // EXACT: only the largest log of the bound (smaller ones are covered by the other entries)
+	if rt.Param("EXACT", 0) != 1 {
+		n = 1 + rt.Choose("n", N)
+	}
 	l := buildLog(n, cluster)
 
 	exists := rt.Bool("exists")
@@ -93,6 +96,10 @@ func run(cluster, recombine bool) {
 			query = 1 << 32
 			far = true
 		}
+		// in these entries every version is concrete (a symbolic CurrentVersion that steers how a
+		// proof is replayed would make the replayed tree's shape symbolic): beyond the log, the
+		// asked version, the true one, zero
+		current = 1 << 40
 		switch rt.Choose("current-kind", 4) {
 		case 1:
 			current = asked
